@@ -31,6 +31,7 @@ VShare == { [tag |-> 200, len |-> 33], [tag |-> 201, len |-> 40] }
 \* H-faults: long values, so that several hashed nodes exist
 KFaults == { <<0,0>>, <<0,1>>, <<0,0,0,0>>, <<0,0,0,1>>, <<1,0>>, <<>> }
 LFaults == KFaults \cup { <<0,0,0,0,0,0>>, <<1,1>>, <<0,0,1,0>> }
+KFaults3 == { <<0,0>>, <<0,1>>, <<0,0,0,0>> }
 VFaults == { [tag |-> 200, len |-> 33], [tag |-> 201, len |-> 40] }
 
 NoBugs == {}
@@ -46,6 +47,7 @@ FBatchNoop == {"direct", "batch", "noop"}
 FHist == {"direct", "batch", "second", "failwrite"}
 FBatchFail == {"direct", "batch", "failwrite"}
 FFaults == {"direct", "batch", "lose", "get"}
+FDirectNoop == {"direct", "noop"}
 FFaultsDirect == {"direct", "lose", "get"}
 
 \* depth bound as a guard of the next-state relation (a state constraint would
@@ -69,6 +71,9 @@ Lvl8 == Level(8)
 \* the observations do not influence any later step
 ViewLight == <<prune, IF prune THEN db ELSE {}, root, rc, contents, root2, contents2,
                bopen, cache, corder, broot, brc, bcontents, bops, lost>>
+\* fault runs: the database matters (what is readable), the ghost history does not
+ViewFaults == <<prune, db, root, rc, contents, root2, contents2,
+                bopen, cache, corder, broot, brc, bcontents, bops, lost>>
 ViewFull == <<prune, db, root, rc, contents, root2, contents2,
               bopen, cache, corder, broot, brc, bcontents, bops, lost, past>>
 
@@ -83,6 +88,21 @@ ObsC01 == [prune |-> prune, root |-> J(root), look |-> LookJ(contents), db |-> {
            bopen |-> bopen, broot |-> J(broot), blook |-> LookJ(bcontents), brc |-> {},
            root2 |-> J(root2), look2 |-> LookJ(contents2), nlost |-> Cardinality(lost),
            light |-> TRUE]
+\* ---- per-state tables (emitted once per distinct state, by an INVARIANT) ----
+TravTable == {LET o == TravRoot(root, p, Only(db)) IN
+              [p |-> p, d |-> Describe(o), n |-> IF o.kind = "missing" THEN J(o.n) ELSE <<>>,
+               hops |-> o.hops, reads |-> o.reads] : p \in TravPaths(contents)}
+ObsC08 == [trav |-> TravTable, db |-> JSet(db)] @@ ObsC01
+ProofTable == {LET pf == Proof(root, k) IN
+               [k |-> k, proof |-> [i \in 1..Len(pf) |-> J(pf[i])],
+                path |-> JSet(PathNodes(root, k)), v |-> JV(ModelVal(contents, k))] : k \in LookupKeys}
+NeedTable == {[r |-> J(pr.r), k |-> k, need |-> JSet(NeededNodes(pr.r, k)), v |-> JV(ModelVal(pr.c, k))] :
+                pr \in past \cup {[r |-> root, c |-> contents]}, k \in LookupKeys}
+ObsC03 == [proofs |-> ProofTable, needs |-> NeedTable, db |-> JSet(db)] @@ ObsC01
+EmitStC08 == PrintT(ToJson([h |-> hist, st |-> ObsC08]))
+EmitStC03 == PrintT(ToJson([h |-> hist, st |-> ObsC03]))
+ObsC07 == [trav |-> TravTable] @@ Obs
+EmitStC07 == PrintT(ToJson([h |-> hist, st |-> ObsC07]))
 EmitC01 == PrintT(ToJson([h |-> hist', st |-> ObsC01']))
 EmitAll == PrintT(ToJson([h |-> hist', st |-> Obs']))
 =============================================================================
